@@ -338,6 +338,60 @@ def hist_check(ci):
     return Res(list(seen.items()), o=(cfg["kind"], cfg["suffix"]), tr=len(sels) + 2)
 
 
+# ------------------------------------------------------------------ reads that span more samples than any internal block size
+def long_cases(tier, seed):
+    from mc import thresholds
+    ths = [t for t in thresholds.mine([spikeglx], 20000, 2_000_000)]
+    top = max(ths) if ths else 1_000_000
+    return [(suffix, int(top * 1.25) + 7, tuple(ths)) for suffix in (".bin", ".cbin")]
+
+
+def long_check(case):
+    """a recording longer than every block / batch / chunk size found in the reader's source: strided and reversed slices, integers at the thresholds"""
+    suffix, ns, ths = case
+    d = synth.proc_scratch(clean=True)
+    k = 3
+    sites = [(0, 1, 1), (0, 0, 0), (0, 1, 0)]                     # a non-identity sorted order
+    raw = np.empty((ns, k + 1), dtype=np.int16)
+    t = np.arange(ns, dtype=np.int64)
+    for c in range(k + 1):
+        raw[:, c] = ((t * (37 + 2 * c) + 101 * c) % 65536 - 32768).astype(np.int16)
+    fbin = synth.write_recording(d, "long_g0_t0.imec0.ap", raw, synth.meta_items("NP2.1", sites, ns))
+    s2v = np.array(synth.ref_s2v("NP2.1", "ap", k, 1), dtype=np.float64)
+    order = synth.ref_sort_order(sites) + [k]
+    if suffix == ".cbin":
+        sr0 = spikeglx.Reader(fbin)
+        sr0.compress_file(keep_original=False, n_threads=1, quiet=True, check_after_compress=False)
+        sr0.close()
+        fbin = fbin.replace(".bin", ".cbin")
+    v = []
+    sr = spikeglx.Reader(fbin)
+    sels = [slice(None, None, 3), slice(5, None, 7), slice(None, None, -7), slice(100, ns - 100, 11), slice(ns - 3, 2, -13), slice(ns // 2 + 1, None, 1),
+            slice(0, ns, 30), slice(1, ns, 12)]
+    for th in ths:
+        sels += [th - 1, th, th + 1, slice(th - 2, th + 3), slice(0, th + 5, 9)]
+    ntr = 0
+    try:
+        for sel in sels:
+            try:
+                got = sr[sel, :]
+            except Exception as e:
+                v.append(("long-read:exc:%s" % type(e).__name__, "%s of %d samples: sr[%r, :] raised %s: %s" % (suffix, ns, sel, type(e).__name__, e)))
+                break
+            ntr += 1
+            rows = raw[sel][..., order]
+            exp = rows.astype(np.float32).astype(np.float64) * s2v[order]
+            if np.asarray(got).shape != exp.shape:
+                v.append(("long-read:shape", "%s of %d samples: sr[%r, :] has shape %r, NumPy indexing of the whole array gives %r" % (suffix, ns, sel, np.asarray(got).shape, exp.shape)))
+                break
+            if not refmodel.calib_close(np.asarray(got), exp):
+                v.append(("long-read:values", "%s of %d samples: sr[%r, :] returns other samples than NumPy indexing of the calibrated array" % (suffix, ns, sel)))
+                break
+    finally:
+        sr.close()
+    return Res(v, o=suffix, tr=ntr)
+
+
 # ------------------------------------------------------------------ every int16 value through every gain class
 def value_cases(tier, seed):
     out = []
@@ -420,5 +474,6 @@ CHECK = {
         Clause("geometry", "column i is geometry entry i; order by shank,row,-col", cases=geom_cases, check=geom_check),
         Clause("kept-results", "arrays returned by earlier reads stay valid after later reads", cases=hist_cases, check=hist_check),
         Clause("values", "all 65536 int16 values x every gain class x bin/cbin", cases=value_cases, check=value_check),
+        Clause("long-reads", "a recording longer than every block size mined from the reader's source: strided / reversed slices, integers at each threshold", cases=long_cases, check=long_check),
     ],
 }
